@@ -144,6 +144,7 @@ type c13Profile struct {
 	minOps, maxOps                                                              int
 	wMint, wBurn, wSell, wBuy, wAdd, wRemove, wCommit, wRestart, wExpire, wTrip int
 	twoPools                                                                    bool
+	gas                                                                         int // out of 16: the transaction pays its commission in coin 1 through pool(0,1)
 	normalPool                                                                  int // out of 8: reserves of a "usual" magnitude and ratio
 }
 
@@ -307,6 +308,110 @@ func (r *c13Run) expectOtherPoolsUnchanged(what string, self *c13Pool) {
 }
 
 // ---------------------------------------------------------------------------------------
+// commission paid in a pool coin
+//
+// Every transaction whose gas coin is not the base coin pays its commission by selling the gas
+// coin into the (gas coin, base coin) pool (CalculateCommission -> commissionFromPool, then
+// PairSellWithOrders(gasCoin, baseCoin, commission, 0) in the deliver part, BEFORE the
+// transaction's own pool call). When the transaction works on that same pool, its checks run
+// on swapper.AddLastSwapStepWithOrders(...), an in-memory emulation of the commission trade.
+// Coin 0 is the base coin, coin 1 the gas coin, pool(0,1) the commission pool.
+
+type c13Gas struct {
+	price      *big.Int // commission in base coin
+	commission *big.Int // commission in gas coin
+	emulated   bool
+	note       string
+}
+
+func (r *c13Run) drawGas() *c13Gas {
+	if r.prof.gas == 0 || !r.pools[0].created || r.u("gas", 16) >= r.prof.gas {
+		return nil
+	}
+	var x *big.Int
+	base := r.pools[0].r[0]
+	switch k := r.u("gas/kind", 8); {
+	case k == 0:
+		x = r.amount("gas/price", base)
+	case k == 1:
+		x = c13b(int64(1 + r.u("gas/dust", 1000)))
+	default:
+		x = c13mul(c13pow10(15+r.u("gas/e", 6)), c13b(int64(1+r.u("gas/m", 99)))) // usual commission prices
+		if c13mul(x, c13b(10)).Cmp(base) > 0 {
+			f := []int64{10, 100, 1000, 10000, 1000000}[r.u("gas/frac", 5)]
+			x = c13add(c13div(base, c13b(f)), c13b(1))
+		}
+	}
+	return &c13Gas{price: x}
+}
+
+// gasCheck is the commission part of the transaction's checks; it returns the swapper the
+// transaction's own checks must use.
+func (r *c13Run) gasCheck(g *c13Gas, what string, x, y types.CoinID, swapper swap.EditableChecker) (swap.EditableChecker, bool) {
+	const gasCoin, baseCoin = types.CoinID(1), types.CoinID(0)
+	reject := func(why string) (swap.EditableChecker, bool) {
+		r.step("%s with gas coin 1, commission price %s: rejected (%s)", what, g.price, why)
+		sim.S.Label("C13/rejected/gas")
+		return nil, false
+	}
+	if g.price.Sign() == 0 {
+		return reject("zero commission is not converted")
+	}
+	com := r.sw.GetSwapper(gasCoin, baseCoin)
+	var c *big.Int
+	r.call("CalculateSellForBuyWithOrders", func() { c, _ = com.CalculateSellForBuyWithOrders(g.price) })
+	if c == nil {
+		return reject("insufficient liquidity")
+	}
+	if c.Cmp(c13MaxSupply) > 0 {
+		return reject("maximum value to sell")
+	}
+	if c.Sign() != 1 {
+		return reject("non-positive commission")
+	}
+	if !r.affordable(gasCoin, c) {
+		return reject("insufficient funds")
+	}
+	g.commission = c
+	g.note = fmt.Sprintf(" [gas coin 1: commission price %s -> commission %s]", g.price, c)
+	if swapper.GetID() == com.GetID() {
+		var cib *big.Int
+		r.call("CalculateBuyForSellWithOrders", func() { cib, _ = com.CalculateBuyForSellWithOrders(c) })
+		if x == gasCoin && y == baseCoin {
+			r.call("AddLastSwapStepWithOrders", func() { swapper = swapper.AddLastSwapStepWithOrders(c, cib, true) })
+			g.emulated = true
+			g.note += "[checks on the emulated pool, gas coin first]"
+		}
+		if y == gasCoin && x == baseCoin {
+			r.call("AddLastSwapStepWithOrders", func() {
+				swapper = swapper.AddLastSwapStepWithOrders(new(big.Int).Neg(cib), new(big.Int).Neg(c), true)
+			})
+			g.emulated = true
+			g.note += "[checks on the emulated pool, base coin first]"
+		}
+	}
+	return swapper, true
+}
+
+// gasDeliver is the first thing the deliver part does: sell the commission into pool(0,1).
+// It returns false when the node would panic in the commission trade (known finding
+// c13-commission-dust-panic): the commission leg has no CalculateBuyForSellWithOrders precheck,
+// and for a commission price of a few units selling the computed commission yields nothing.
+func (r *c13Run) gasDeliver(g *c13Gas) bool {
+	r.steps[len(r.steps)-1] += g.note
+	r.step("  commission: sell pool(0,1) 1->0 valueToSell=%s", g.commission)
+	var out *big.Int
+	r.call("CalculateBuyForSellWithOrders", func() { out, _ = r.sw.GetSwapper(1, 0).CalculateBuyForSellWithOrders(g.commission) })
+	if out == nil || out.Sign() != 1 || c13sub(g.commission, c13ceilDiv(g.commission, c13b(1000))).Sign() != 1 {
+		r.note("excluded: known finding c13-commission-dust-panic (selling the commission yields %v)", out)
+		r.excluded["c13-commission-dust-panic"]++
+		return false
+	}
+	r.tradeExec(r.pools[0], 1, 0, false, "commission", g.commission, nil, c13b(0), nil, false)
+	return true
+}
+
+// ---------------------------------------------------------------------------------------
 // amounts
 
 var c13Fractions = [][2]int64{{1, 1}, {1, 2}, {1, 3}, {1, 10}, {1, 100}, {1, 1000}, {1, 10000}, {1, 1000000}, {2, 1}, {3, 1}, {10, 1}, {999, 1000}, {1001, 1000}, {1, 499}, {1, 500}, {1, 501}, {1, 20}, {1, 5}, {7, 10}, {1, 50}}
@@ -442,6 +547,13 @@ func (r *c13Run) opMint(p *c13Pool, roundTrip bool) {
 	who := c13LPs[r.u("mint/who", len(c13LPs))]
 	var needed *big.Int
 	swapper := r.sw.GetSwapper(x, y)
+	g := r.drawGas()
+	if g != nil {
+		var ok bool
+		if swapper, ok = r.gasCheck(g, "mint", x, y, swapper); !ok {
+			return
+		}
+	}
 	r.call("CalculateAddLiquidity", func() { _, needed = swapper.CalculateAddLiquidity(v0, p.supply) })
 	max1 := c13cp(c13MaxSupply)
 	switch r.u("mint/max", 6) {
@@ -475,11 +587,19 @@ func (r *c13Run) opMint(p *c13Pool, roundTrip bool) {
 		sim.S.Label("C13/rejected/mint/funds")
 		return
 	}
+	if g != nil {
+		if !r.gasDeliver(g) {
+			return
+		}
+		swapper = r.sw.GetSwapper(x, y)
+	}
 	r.resetBus()
 	var b0, b1, liq *big.Int
 	r.call("PairMint", func() { b0, b1, liq = r.sw.PairMint(x, y, v0, max1, p.supply) })
 	r.note("took %s/%s minted %s", b0, b1, liq)
-	if b0.Cmp(v0) != 0 || b1.Cmp(max1) > 0 || b1.Sign() < 0 {
+	if g != nil && g.emulated && b1.Cmp(max1) > 0 {
+		sim.S.Label("C13/gas/mint-took-more-than-maximum") // user protection, not pool value
+	} else if b0.Cmp(v0) != 0 || b1.Cmp(max1) > 0 || b1.Sign() < 0 {
 		r.fail("c13-mint-amounts", "PairMint(volume0=%s, max1=%s) took %s and %s", v0, max1, b0, b1)
 	}
 	if liq.Sign() != 1 {
@@ -590,6 +710,13 @@ func (r *c13Run) opBurn(p *c13Pool) {
 		liq = r.amount("burn/liq", bal, p.supply)
 	}
 	swapper := r.sw.GetSwapper(x, y)
+	g := r.drawGas()
+	if g != nil {
+		var ok bool
+		if swapper, ok = r.gasCheck(g, "burn", x, y, swapper); !ok {
+			return
+		}
+	}
 	min0, min1 := c13b(0), c13b(0)
 	if liq.Sign() == 1 {
 		switch r.u("burn/min", 6) {
@@ -621,6 +748,23 @@ func (r *c13Run) opBurn(p *c13Pool) {
 		sim.S.Label("C13/rejected/burn/check")
 		return
 	}
+	if g != nil {
+		if !r.gasDeliver(g) {
+			return
+		}
+		if g.emulated {
+			// Known finding c13-gas-emulation-burn-panic: the checks ran on the emulated pool; on
+			// the real pool after the commission trade PairBurn would panic. The node is down at
+			// this point; the search goes on from the state after the commission trade alone.
+			var err2 error
+			r.call("CheckBurn", func() { err2 = r.sw.GetSwapper(x, y).CheckBurn(liq, min0, min1, p.supply) })
+			if err2 != nil {
+				r.note("excluded: known finding c13-gas-emulation-burn-panic (%v on the real pool)", err2)
+				r.excluded["c13-gas-emulation-burn-panic"]++
+				return
+			}
+		}
+	}
 	r.resetBus()
 	var o0, o1 *big.Int
 	r.call("PairBurn", func() { o0, o1 = r.sw.PairBurn(x, y, liq, min0, min1, p.supply) })
@@ -635,9 +779,16 @@ func (r *c13Run) opBurn(p *c13Pool) {
 func (r *c13Run) opTrade(p *c13Pool, buy bool) {
 	inC, outC := r.orient(p, "trade")
 	swapper := r.sw.GetSwapper(inC, outC)
+	g := r.drawGas()
+	if g != nil {
+		var ok bool
+		if swapper, ok = r.gasCheck(g, "trade", inC, outC, swapper); !ok {
+			return
+		}
+	}
 	var amtIn, amtOut, limit, est *big.Int
 	if !buy {
-		amtIn = r.amount("sell/in", p.r[inC], p.r[outC])
+		amtIn = r.amount("sell/in", r.tradeRefs(p, inC, outC, false)...)
 		r.call("CalculateBuyForSellWithOrders", func() { est, _ = swapper.CalculateBuyForSellWithOrders(amtIn) })
 		limit = c13b(0)
 		if est != nil {
@@ -674,7 +825,7 @@ func (r *c13Run) opTrade(p *c13Pool, buy bool) {
 			return
 		}
 	} else {
-		amtOut = r.amount("buy/out", p.r[outC], p.r[inC])
+		amtOut = r.amount("buy/out", r.tradeRefs(p, inC, outC, true)...)
 		r.call("CalculateSellForBuyWithOrders", func() { est, _ = swapper.CalculateSellForBuyWithOrders(amtOut) })
 		limit = c13cp(c13MaxSupply)
 		if est != nil {
@@ -707,12 +858,46 @@ func (r *c13Run) opTrade(p *c13Pool, buy bool) {
 			return
 		}
 	}
-	if id := r.knownTradePanic(p, inC, outC, buy, amtIn, amtOut); id != "" {
+	if id := r.knownTradePanic(p, inC, outC, buy, amtIn, amtOut, g); id != "" {
 		r.note("excluded: known finding %s", id)
 		r.excluded[id]++
 		return
 	}
+	kind := "sell"
+	if buy {
+		kind = "buy"
+	}
+	if g != nil {
+		if !r.gasDeliver(g) {
+			return
+		}
+		kind += "+gas"
+	}
+	r.tradeExec(p, inC, outC, buy, kind, amtIn, amtOut, limit, est, g != nil)
+}
 
+// tradeRefs: magnitudes a trade amount is drawn relative to – mostly the reserve of the coin the
+// amount is denominated in, and the volumes of the open orders the trade would meet.
+func (r *c13Run) tradeRefs(p *c13Pool, inC, outC types.CoinID, buy bool) []*big.Int {
+	c := inC
+	if buy {
+		c = outC
+	}
+	refs := []*big.Int{p.r[c], p.r[c], p.r[c], p.r[c], p.r[p.other(c)]}
+	for _, o := range r.orders {
+		if o.open && o.sell == outC && o.buy == inC {
+			if buy {
+				refs = append(refs, o.wantSell)
+			} else {
+				refs = append(refs, o.wantBuy)
+			}
+		}
+	}
+	return refs
+}
+
+// tradeExec performs PairSellWithOrders / PairBuyWithOrders and applies the trade oracles.
+func (r *c13Run) tradeExec(p *c13Pool, inC, outC types.CoinID, buy bool, kind string, amtIn, amtOut, limit, est *big.Int, afterGas bool) {
 	escOutBefore := r.escrow(outC, p)
 	r.resetBus()
 	var paid, got *big.Int
@@ -728,13 +913,15 @@ func (r *c13Run) opTrade(p *c13Pool, buy bool) {
 		if got.Cmp(amtOut) != 0 {
 			r.fail("c13-buy-amount-out", "PairBuyWithOrders(valueToBuy=%s) reports %s bought", amtOut, got)
 		}
-		if paid.Cmp(limit) > 0 {
+		if paid.Cmp(limit) > 0 && afterGas {
+			sim.S.Label("C13/gas/buy-took-more-than-maximum")
+		} else if paid.Cmp(limit) > 0 {
 			r.fail("c13-buy-above-maximum", "PairBuyWithOrders took %s, the check accepted with maximumValueToSell=%s (estimate %s)", paid, limit, est)
 		}
 	}
 	r.note("in=%s out=%s fills=%d", paid, got, len(details.Orders))
-	if (!buy && got.Cmp(est) != 0) || (buy && paid.Cmp(est) != 0) {
-		sim.S.Label("C13/trade/estimate-differs-from-execution")
+	if est != nil && ((!buy && got.Cmp(est) != 0) || (buy && paid.Cmp(est) != 0)) {
+		sim.S.Label("C13/trade/estimate-differs-from-execution/" + kind)
 	}
 	if paid.Sign() != 1 || got.Sign() != 1 {
 		r.fail("c13-trade-non-positive", "trade took %s and paid %s", paid, got)
@@ -868,10 +1055,6 @@ func (r *c13Run) opTrade(p *c13Pool, buy bool) {
 	r.pay[outC].Add(r.pay[outC], c13add(got, busOut))
 	r.expectOtherPoolsUnchanged("trade", p)
 
-	kind := "sell"
-	if buy {
-		kind = "buy"
-	}
 	sim.S.Label("C13/ok/" + kind)
 	active := false
 	if !buy {
@@ -897,7 +1080,7 @@ func (r *c13Run) opTrade(p *c13Pool, buy bool) {
 
 // knownTradePanic reports the id of a known finding whose trigger class contains this trade.
 // Filled in when the search finds panics on the unchanged repository (see TestC13Pure_KF_*).
-func (r *c13Run) knownTradePanic(p *c13Pool, inC, outC types.CoinID, buy bool, amtIn, amtOut *big.Int) string {
+func (r *c13Run) knownTradePanic(p *c13Pool, inC, outC types.CoinID, buy bool, amtIn, amtOut *big.Int, g *c13Gas) string {
 	return ""
 }
 
@@ -963,7 +1146,18 @@ func (r *c13Run) opAddOrder(p *c13Pool) {
 		k := c13b(int64(1 + r.u("order/mult", 3)))
 		vb, vs = c13mul(o.origBuy, k), c13mul(o.origSell, k)
 	} else {
-		vb = r.amount("order/buy", rB, c13MinVol)
+		switch r.u("order/vol", 8) {
+		case 0:
+			vb = r.amount("order/buy", rB, c13MinVol)
+		case 1, 2:
+			vb = c13add(c13mul(c13MinVol, c13b(int64(1+r.u("order/small", 5)))), c13b(int64(r.u("order/smallpm", 3)))) // remainders fall below the minimum
+		default:
+			f := [][2]int64{{1, 1000}, {1, 300}, {1, 100}, {1, 30}, {1, 10}, {1, 4}, {1, 2}, {1, 1}}[r.u("order/frac", 8)]
+			vb = c13add(c13div(c13mul(rB, c13b(f[0])), c13b(f[1])), c13b(int64(r.u("order/lo", 1000))))
+			if vb.Cmp(c13MinVol) < 0 {
+				vb = c13mul(c13MinVol, c13b(int64(1+r.u("order/up", 100))))
+			}
+		}
 		// price factor n/1000 in [1, 5] (order price = pool price / factor), boundary-biased
 		var n int64
 		switch r.u("order/band", 8) {
@@ -971,14 +1165,21 @@ func (r *c13Run) opAddOrder(p *c13Pool) {
 			n = 1000
 		case 1:
 			n = 5000
-		case 2, 3, 4:
+		case 2, 3, 4, 5:
 			n = 1000 + int64(r.u("order/near", 30))
-		case 5:
+		case 6:
 			n = 900 + int64(r.u("order/out", 4400)) // may fall outside the band
 		default:
 			n = 1000 + int64(r.u("order/n", 4001))
 		}
 		vs = c13div(c13mul(c13mul(vb, rS), c13b(1000)), c13mul(rB, c13b(n)))
+		if vs.Cmp(c13MinVol) < 0 && r.u("order/scale", 8) > 0 {
+			// very unequal reserves: scale both volumes so that the smaller one reaches the minimum
+			k := c13ceilDiv(c13MinVol, c13add(vs, c13b(1)))
+			k.Add(k, c13b(1))
+			vb = c13mul(vb, k)
+			vs = c13div(c13mul(c13mul(vb, rS), c13b(1000)), c13mul(rB, c13b(n)))
+		}
 		vs.Add(vs, c13b(int64(r.u("order/pm", 3)-1)))
 		if vs.Sign() < 0 {
 			vs.SetInt64(0)
@@ -993,6 +1194,13 @@ func (r *c13Run) opAddOrder(p *c13Pool) {
 	swapper := r.sw.GetSwapper(sellC, buyC)
 	if !swapper.Exists() {
 		r.fail("c13-pool-vanished", "GetSwapper(%d,%d).Exists() is false", sellC, buyC)
+	}
+	g := r.drawGas()
+	if g != nil {
+		var ok bool
+		if swapper, ok = r.gasCheck(g, "addOrder", sellC, buyC, swapper); !ok {
+			return
+		}
 	}
 	if !r.affordable(sellC, vs) {
 		r.note("rejected: insufficient funds")
@@ -1009,6 +1217,9 @@ func (r *c13Run) opAddOrder(p *c13Pool) {
 	if rejected {
 		r.note("rejected: price outside the band")
 		sim.S.Label("C13/rejected/addOrder/price")
+		return
+	}
+	if g != nil && !r.gasDeliver(g) {
 		return
 	}
 	r.resetBus()
@@ -1040,6 +1251,15 @@ func (r *c13Run) opRemoveOrder() {
 		id = uint32(len(r.orders) + 1 + r.u("remove/ghostid", 3))
 	} else {
 		id = r.orders[r.u("remove/which", len(r.orders))].id
+		var live []*c13Order
+		for _, o := range r.orders {
+			if o.open && o.height < r.height {
+				live = append(live, o)
+			}
+		}
+		if len(live) > 0 && r.u("remove/live", 4) > 0 {
+			id = live[r.u("remove/whichlive", len(live))].id
+		}
 	}
 	o := r.byID[id]
 	r.step("removeOrder id=%d", id)
@@ -1059,14 +1279,25 @@ func (r *c13Run) opRemoveOrder() {
 	if l.Owner != o.owner {
 		r.fail("c13-order-owner-changed", "order %d belongs to %s, the book says %s", id, o.owner.String(), l.Owner.String())
 	}
+	swapper := r.sw.GetSwapper(l.Coin0, l.Coin1)
+	g := r.drawGas()
+	if g != nil {
+		var ok bool
+		if swapper, ok = r.gasCheck(g, "removeOrder", l.Coin0, l.Coin1, swapper); !ok {
+			return
+		}
+	}
 	var used bool
-	r.call("IsOrderAlreadyUsed", func() { used = r.sw.GetSwapper(l.Coin0, l.Coin1).IsOrderAlreadyUsed(id) })
+	r.call("IsOrderAlreadyUsed", func() { used = swapper.IsOrderAlreadyUsed(id) })
 	if used {
 		r.note("rejected: already used")
 		sim.S.Label("C13/rejected/removeOrder/used")
-		if o.open {
+		if o.open && (g == nil || !g.emulated) {
 			r.fail("c13-open-order-not-removable", "order %d (holds %s of coin %d) is reported as already used", id, o.wantSell, o.sell)
 		}
+		return
+	}
+	if g != nil && !r.gasDeliver(g) {
 		return
 	}
 	r.resetBus()
@@ -1316,7 +1547,7 @@ func c13Quiet(t *testing.T) {
 }
 
 func c13SeqProfile() c13Profile {
-	return c13Profile{name: "sequence", minOps: scale(12, 20), maxOps: scale(28, 60), wMint: 6, wTrip: 4, wBurn: 8, wSell: 22, wBuy: 22, wAdd: 20, wRemove: 5, wCommit: 7, wRestart: 4, wExpire: 2, twoPools: true, normalPool: 6}
+	return c13Profile{name: "sequence", minOps: scale(14, 20), maxOps: scale(36, 70), wMint: 6, wTrip: 4, wBurn: 8, wSell: 22, wBuy: 22, wAdd: 20, wRemove: 5, wCommit: 7, wRestart: 4, wExpire: 2, twoPools: true, normalPool: 6, gas: 3}
 }
 
 // TestC13PureSequence – operation sequences over one (sometimes two) pools with limit orders,
